@@ -620,6 +620,14 @@ def rule_r11(ctx, rid="C03.R11"):
             if isinstance(root, (ast.FunctionDef, ast.AsyncFunctionDef, ast.ClassDef)):
                 continue  # closures are functions of their own
             for c in ast.walk(root):
+                if isinstance(c, ast.Compare) and len(c.ops) == 1 and isinstance(c.ops[0], (ast.In, ast.NotIn)) and isinstance(c.comparators[0], ast.Constant) \
+                        and isinstance(c.comparators[0].value, str) and c.comparators[0].value.lower() in _FRAMING_NAMES:
+                    # `name in "content-length"`: a substring test (a parenthesised string is not a tuple)
+                    n += 1
+                    ctx.r.violation(rid, key_of(f, None, "substring-name-test::" + c.comparators[0].value.lower()),
+                                    "%s tests %s: membership in a *string* is a substring test - every header whose name is a fragment of %r (e.g. 'Content', 'Length') is taken for it"
+                                    % (f.qual, norm(c), c.comparators[0].value), f.loc(c))
+                    continue
                 if not (isinstance(c, ast.Compare) and len(c.ops) == 1 and isinstance(c.ops[0], (ast.Eq, ast.NotEq))):
                     continue
                 sides = [c.left, c.comparators[0]]
@@ -651,7 +659,15 @@ def rule_r11(ctx, rid="C03.R11"):
     ctx.r.floor(rid, n, 4, "comparisons of response header names with framing names")
 
 
-RULES = [rule_r1, rule_r2, rule_r3, rule_r4, rule_r5, rule_r6, rule_r7, rule_r8, rule_error_route, rule_buffers, rule_r11]
+def rule_r12(ctx):
+    """Shared with C04.R8 (flush accounting: a partial send must not lose response bytes) and C04.R4 (single dispatch: a
+    request served twice puts two responses on the wire)."""
+    from . import c04
+    c04.rule_r8(ctx, rid="C03.R12")
+    c04.rule_r4(ctx, rid="C03.R12")
+
+
+RULES = [rule_r1, rule_r2, rule_r3, rule_r4, rule_r5, rule_r6, rule_r7, rule_r8, rule_error_route, rule_buffers, rule_r11, rule_r12]
 
 from ..selftest import M, T, V  # noqa: E402
 
